@@ -5,8 +5,8 @@ theorems of C05 / C06 / C07 / C14 are about. A change of one of those Rust funct
 changes its meaning breaks the corresponding equality at build time.
 -/
 import Qvnt.Generated.Regs
-import Qvnt.Lemmas.GenRegs
-import Qvnt.Lemmas.GenKernels
+import Qvnt.Lemmas.GenCore
+import Qvnt.Lemmas.Queue
 
 set_option linter.unusedSectionVars false
 
@@ -139,27 +139,6 @@ theorem quant_normalize_eq (r : QReg R) : quant_normalize (ofModel r) = ofModel 
     · simp [h1, h2]
     · simp [h1, h2, ofModel]
 
-theorem creg_new_eq (n : Nat) : (creg_new n).toModel = CReg.new n := by
-  simp [creg_new, CReg.new, creg_with_state_eq]
-
-/-- `measure_mask` with the drawn basis index as an input: same new register, same classical register -/
-theorem quant_measure_mask_eq (r : QReg R) (mask randIdx : Nat) :
-    (quant_measure_mask (ofModel r) mask randIdx).2 = ofModel (r.measureMask mask randIdx).1 ∧
-    (quant_measure_mask (ofModel r) mask randIdx).1.toModel = (r.measureMask mask randIdx).2 := by
-  unfold quant_measure_mask QReg.measureMask
-  by_cases h : mask &&& r.qMask = 0
-  · simp [h, ofModel, creg_new_eq]
-  · have h' : (mask &&& (ofModel r).q_mask == 0) = false := by simpa [ofModel] using h
-    simp only [h', h, quant_collapse_mask_eq, quant_rescale_eq]
-    simp [ofModel, QReg.rescale, QReg.collapseMask]
-    split <;> exact creg_with_state_eq _ _
-
-theorem quant_measure_eq (r : QReg R) (randIdx : Nat) :
-    (quant_measure (ofModel r) randIdx).2 = ofModel (r.measureMask r.qMask randIdx).1 ∧
-    (quant_measure (ofModel r) randIdx).1.toModel = (r.measureMask r.qMask randIdx).2 := by
-  have := quant_measure_mask_eq r r.qMask randIdx
-  simpa [quant_measure, ofModel] using this
-
 theorem quant_tensor_prod_eq (a b : QReg R) (ha : a.qNum + b.qNum < 64) :
     quant_tensor_prod (ofModel a) (ofModel b) = ofModel (a.tensorProd b) := by
   have h8 : a.qNum % 2 ^ 8 = a.qNum := Nat.mod_eq_of_lt (by omega)
@@ -264,27 +243,6 @@ theorem x_ctrl (v : Nat) : ∀ g ∈ (Op.x v : MultiOp R), g.ctrl < 2 ^ 64 := by
   · simp at hg
   · simp at hg; subst hg; simp [SingleOp.ofAtom]
 
-/-- `reset_by_mask` with the drawn basis index as an input -/
-theorem quant_reset_by_mask_eq (r : QReg R) (mask randIdx : Nat) :
-    quant_reset_by_mask (ofModel r) mask randIdx = ofModel (r.resetByMask mask randIdx) := by
-  unfold quant_reset_by_mask QReg.resetByMask
-  by_cases h : mask &&& r.qMask = r.qMask
-  · have h' : (mask &&& (ofModel r).q_mask == (ofModel r).q_mask) = true := by simpa [ofModel] using h
-    simp only [h', h, ↓reduceIte, quant_reset_eq]
-  · have h' : (mask &&& (ofModel r).q_mask == (ofModel r).q_mask) = false := by simpa [ofModel] using h
-    obtain ⟨h1, h2⟩ := quant_measure_mask_eq r mask randIdx
-    simp only [h', h, Bool.false_eq_true, ↓reduceIte]
-    generalize hq : quant_measure_mask (ofModel r) mask randIdx = q at h1 h2
-    obtain ⟨c, q'⟩ := q
-    simp only at h1 h2
-    subst h1
-    have hv : creg_get c = (r.measureMask mask randIdx).2.value := by
-      rw [← h2]; rfl
-    simp only [hv]
-    by_cases hz : (r.measureMask mask randIdx).2.value = 0
-    · simp [hz]
-    · simp [hz, quant_apply_eq _ _ (x_ctrl _)]
-
 end apply
 
 /-! ### `BitsIter::next` (`math/bits_iter.rs`) -/
@@ -351,39 +309,11 @@ theorem bitsList_eq (m : Nat) : bitsList m = bitsIterList m := by
   unfold bitsList bitsIterList
   rw [bits_from_eq, bitsCollect_eq _ _ (by simp [Qvnt.BitsIter.ofMask])]
 
-/-! ### classical register: `get_by_mask`, `*`, `*=` (`register/class.rs`) -/
-
-theorem foldl_ext_mem {α β : Type} (f g : α → β → α) (l : List β) (a : α)
-    (H : ∀ a, ∀ b ∈ l, f a b = g a b) : l.foldl f a = l.foldl g a := by
-  induction l generalizing a with
-  | nil => rfl
-  | cons x xs ih =>
-    simp only [List.foldl_cons]
-    rw [H a x (by simp)]
-    exact ih _ (fun a b hb => H a b (by simp [hb]))
-
-/-- for a register whose mask is a machine word (always the case: `mask_of`), the gathered bits -/
-theorem creg_get_by_mask_eq (c : CRegG) (mask : Nat) (hq : c.q_mask < 2 ^ 64) :
-    creg_get_by_mask c mask = c.toModel.getByMask mask := by
-  unfold creg_get_by_mask CReg.getByMask
-  rw [bitsList_eq]
-  simp only [CRegG.toModel, Rs.enumerate, List.foldl_map]
-  have hm : mask &&& c.q_mask < 2 ^ 64 := lt_of_le_of_lt Nat.and_le_right hq
-  have hlen : (bitsIterList (mask &&& c.q_mask)).length ≤ 64 := by
-    rw [bitsIterList_eq_bitsOf _ hm, length_bitsOf _ hm]
-    exact popcount_lt_two_pow _ _ hm
-  apply foldl_ext_mem
-  intro acc p hp
-  have hi : p.2 < 64 := by
-    have := List.mem_zipIdx hp
-    omega
-  by_cases h : c.value &&& p.1 = 0
-  · simp [h]
-  · simp [h, shlW, Nat.mod_eq_of_lt hi, Nat.shiftLeft_eq,
-      Nat.mod_eq_of_lt (Nat.pow_lt_pow_right (by decide : 1 < 2) hi)]
-
-theorem creg_mul_eq (a b : CRegG) : creg_mul a b = creg_tensor_prod a b := rfl
-theorem creg_mul_assign_eq (a b : CRegG) : creg_mul_assign a b = creg_tensor_prod a b := rfl
+/-- the atom constructors used below (the same statements are proved for all atoms in `GenKernels`) -/
+theorem h1_new_eq' (a : Nat) : (Gen.h1_new a : Atom R) = .h1 a := rfl
+theorem h2_new_eq' (a b : Nat) : (Gen.h2_new a b : Atom R) = .h2 a b (a ||| b) := rfl
+theorem y_new_eq' (a : Nat) : (Gen.y_new a : Atom R) = .y a (yIPow a) := by
+  unfold Gen.y_new; simp only [yIPow_eq]
 
 /-! ### `multi::h::h` (`operator/multi/h.rs`) -/
 section hgate
@@ -401,7 +331,7 @@ theorem h_loop_eq (a fuel p f : Nat) (b : Bool) (acc : MultiOp R) (hp : p < 2 ^ 
     by_cases hc : (p != 0 && decide (p ≤ a)) = true
     · by_cases hb : (p &&& a != 0) = true
       · cases b
-        · simp [hc, hb, shl_pos p hp, ← ih _ _ _ _ hs, h_h2, single_from, h2_new_eq, SingleOp.ofAtom]
+        · simp [hc, hb, shl_pos p hp, ← ih _ _ _ _ hs, h_h2, single_from, h2_new_eq', SingleOp.ofAtom]
         · simp [hc, hb, shl_pos p hp, ← ih _ _ _ _ hs]
       · simp [hc, hb, shl_pos p hp, ← ih _ _ _ _ hs]
     · simp [hc]
@@ -412,13 +342,13 @@ theorem h_h_eq (a : Nat) : h_h (R := R) a = Op.h a := by
   | zero => simp
   | succ k =>
     cases k with
-    | zero => simp [h_h1, single_from, h1_new_eq, SingleOp.ofAtom]
+    | zero => simp [h_h1, single_from, h1_new_eq', SingleOp.ofAtom]
     | succ k =>
       simp only [beq_iff_eq, Nat.succ_ne_zero, ↓reduceIte, Nat.add_eq_right]
       rw [← h_loop_eq a (W + 2) 1 0 true [] (by decide)]
       cases h_h_loop1 (R := R) a (W + 2) ((1, 0), true, []) with
       | none => simp
-      | some st => cases hb : st.2.1 <;> simp [hb, h_h1, single_from, h1_new_eq, SingleOp.ofAtom]
+      | some st => cases hb : st.2.1 <;> simp [hb, h_h1, single_from, h1_new_eq', SingleOp.ofAtom]
 
 end hgate
 
@@ -428,7 +358,7 @@ variable [Add R] [Sub R] [Mul R] [Div R] [Neg R] [Zero R] [One R] [Consts R] [Tr
 
 theorem pauli_x_eq (a : Nat) : pauli_x (R := R) a = SingleOp.ofAtom (.x a) := rfl
 theorem pauli_y_eq (a : Nat) : pauli_y (R := R) a = SingleOp.ofAtom (.y a (yIPow a)) := by
-  simp [pauli_y, single_from, y_new_eq, SingleOp.ofAtom]
+  simp [pauli_y, single_from, y_new_eq', SingleOp.ofAtom]
 theorem pauli_z_eq (a : Nat) : pauli_z (R := R) a = SingleOp.ofAtom (.z a) := rfl
 theorem pauli_s_eq (a : Nat) : pauli_s (R := R) a = SingleOp.ofAtom (.s a false) := rfl
 theorem pauli_t_eq (a : Nat) : pauli_t (R := R) a = SingleOp.ofAtom (.t a false) := rfl
@@ -492,6 +422,221 @@ theorem op_u2_eq (phi lam : R) (a : Nat) :
   cases Op.rz (halfPhaseDiv lam) a <;> cases Op.ry (halfPhaseDiv (Rs.AngleConsts.fracPi2 : R)) a <;> cases Op.rz (halfPhaseDiv phi) a <;> rfl
 
 end ctors
+
+/-! ### `multi::qft` (`operator/multi/qft.rs`) -/
+section qft
+variable [CommRing R] [Consts R] [Div R] [Trig R] [Rs.AngleConsts R]
+
+/-- the half-angle phases of `PI * 0.5^j`, as the translated constructor computes them -/
+def genPhase (j : Nat) : Cx R := halfPhaseDiv ((Rs.AngleConsts.pi : R) * Rs.powi Consts.half j)
+
+theorem single_c_eq' (g : SingleOp R) (c : Nat) : single_c g c = g.c c := by
+  unfold single_c SingleOp.c single_act_on SingleOp.actOn
+  by_cases h : (g.act ||| g.ctrl) &&& c = 0 <;> simp [h]
+
+theorem foldlM_append {α β : Type} (F : α → Option (List β)) (l : List α) (init : List β) :
+    List.foldlM (fun res i => Option.bind (F i) (fun x => some (res ++ x))) init l =
+      (l.mapM F).map (fun xs => init ++ xs.flatten) := by
+  induction l generalizing init with
+  | nil => simp
+  | cons a l ih =>
+    simp only [List.foldlM_cons, List.mapM_cons]
+    cases F a with
+    | none => simp
+    | some x =>
+      simp only [Option.bind_some, Option.bind_eq_bind, ih]
+      cases l.mapM F <;> simp
+
+theorem vec_eq (a : Nat) :
+    List.foldl (fun (vec : List Nat) idx => if (shlW 64 1 idx &&& a != 0) then vec ++ [shlW 64 1 idx] else vec) [] (Rs.range 0 64) =
+      Op.qftBits a := by
+  unfold Op.qftBits Rs.range W
+  have key : ∀ (l : List Nat) (acc : List Nat), (∀ i ∈ l, i < 64) →
+      List.foldl (fun (vec : List Nat) idx => if (shlW 64 1 idx &&& a != 0) then vec ++ [shlW 64 1 idx] else vec) acc l =
+        acc ++ l.filterMap (fun i => if (2 ^ i) &&& a != 0 then some (2 ^ i) else none) := by
+    intro l
+    induction l with
+    | nil => intro acc _; simp
+    | cons x xs ih =>
+      intro acc hx
+      have hx64 : x < 64 := hx x (by simp)
+      have hs : shlW 64 1 x = 2 ^ x := shl_one x hx64
+      simp only [List.foldl_cons, List.filterMap_cons, hs]
+      rw [ih _ (fun i hi => hx i (by simp [hi]))]
+      by_cases hb : (2 ^ x &&& a != 0) = true <;> simp [hb]
+  have := key (List.range' 0 (64 - 0)) [] (by intro i hi; simp at hi; omega)
+  simpa [List.range_eq_range'] using this
+
+theorem qft_qft_eq (a : Nat) : qft_qft (R := R) a = Op.qft genPhase a := by
+  unfold qft_qft Op.qft
+  cases hc : popcount a with
+  | zero => simp
+  | succ k =>
+    cases k with
+    | zero => simp [h_h_eq]
+    | succ k =>
+      simp only [beq_iff_eq, Nat.succ_ne_zero, ↓reduceIte, Nat.add_eq_right]
+      have hv := vec_eq a
+      -- the bit list
+      have hvec : (List.foldl (fun (st2 : List Nat) a3 =>
+          (if (shlW 64 1 a3 &&& a != 0) = true then st2 ++ [shlW 64 1 a3] else st2)) [] (Rs.range 0 64)) = Op.qftBits a := hv
+      simp only [hvec]
+      generalize Op.qftBits a = vec
+      -- one stage, as a function of i
+      have hstage : ∀ i : Nat,
+          (Option.bind (h_h (R := R) (vec.getD i 0)) fun u19 =>
+            Option.bind (List.mapM (fun j =>
+              Option.bind (Option.bind (rotate_rz (vec.getD (i + j) 0) ((Rs.AngleConsts.pi : R) * Rs.powi Consts.half j))
+                  fun op => single_c op (vec.getD i 0)) fun u25 =>
+                Option.bind (rotate_rz (vec.getD i 0) (Consts.half * ((Rs.AngleConsts.pi : R) * Rs.powi Consts.half j))) fun u26 =>
+                  some [u25, u26]) (Rs.range 1 (k + 1 + 1 - i))) fun u27 => some (u19 ++ List.flatten u27)) =
+          (do
+            let hi ← Op.h (R := R) (vec.getD i 0)
+            let rots ← (List.range (k + 1 + 1 - i - 1)).mapM (fun k' =>
+              match SingleOp.checked (Atom.rz (vec.getD (i + (k' + 1)) 0) (genPhase (R := R) (k' + 1))),
+                    SingleOp.checked (Atom.rz (vec.getD i 0) (genPhase (R := R) (k' + 1 + 1))) with
+              | some g, some g' => (g.c (vec.getD i 0)).map (fun cg => [cg, g'])
+              | _, _ => none)
+            pure (hi ++ rots.flatten)) := by
+        intro i
+        rw [h_h_eq]
+        have hr : Rs.range 1 (k + 1 + 1 - i) = (List.range (k + 1 + 1 - i - 1)).map (· + 1) := by
+          unfold Rs.range
+          apply List.ext_getElem
+          · simp
+          · intro n h1 h2
+            simp [Nat.add_comm]
+        rw [hr, List.mapM_map]
+        have hf : ∀ k' : Nat,
+            (Option.bind (Option.bind (rotate_rz (vec.getD (i + (k' + 1)) 0) ((Rs.AngleConsts.pi : R) * Rs.powi Consts.half (k' + 1)))
+                fun op => single_c op (vec.getD i 0)) fun u25 =>
+              Option.bind (rotate_rz (vec.getD i 0) (Consts.half * ((Rs.AngleConsts.pi : R) * Rs.powi Consts.half (k' + 1)))) fun u26 =>
+                some [u25, u26]) =
+            (match SingleOp.checked (Atom.rz (vec.getD (i + (k' + 1)) 0) (genPhase (R := R) (k' + 1))),
+                  SingleOp.checked (Atom.rz (vec.getD i 0) (genPhase (R := R) (k' + 1 + 1))) with
+              | some g, some g' => (g.c (vec.getD i 0)).map (fun cg => [cg, g'])
+              | _, _ => none) := by
+          intro k'
+          have hph : (Consts.half : R) * ((Rs.AngleConsts.pi : R) * Rs.powi Consts.half (k' + 1)) =
+              (Rs.AngleConsts.pi : R) * Rs.powi Consts.half (k' + 1 + 1) := by
+            simp only [Rs.powi]; ring
+          rw [rotate_rz_eq, rotate_rz_eq, hph]
+          simp only [genPhase]
+          generalize SingleOp.checked (Atom.rz (vec.getD (i + (k' + 1)) 0)
+              (halfPhaseDiv ((Rs.AngleConsts.pi : R) * Rs.powi Consts.half (k' + 1)))) = o1
+          generalize SingleOp.checked (Atom.rz (vec.getD i 0)
+              (halfPhaseDiv ((Rs.AngleConsts.pi : R) * Rs.powi Consts.half (k' + 1 + 1)))) = o2
+          cases o1 with
+          | none => cases o2 <;> rfl
+          | some g =>
+            cases o2 with
+            | none => simp only [Option.bind_some]; rw [single_c_eq']; cases g.c (vec.getD i 0) <;> rfl
+            | some g' => simp only [Option.bind_some]; rw [single_c_eq']; cases g.c (vec.getD i 0) <;> rfl
+        simp only [Function.comp_def, hf]
+        cases Op.h (R := R) (vec.getD i 0) <;> simp
+      -- assemble
+      have hloop := foldlM_append (fun i =>
+          (Option.bind (h_h (R := R) (vec.getD i 0)) fun u19 =>
+            Option.bind (List.mapM (fun j =>
+              Option.bind (Option.bind (rotate_rz (vec.getD (i + j) 0) ((Rs.AngleConsts.pi : R) * Rs.powi Consts.half j))
+                  fun op => single_c op (vec.getD i 0)) fun u25 =>
+                Option.bind (rotate_rz (vec.getD i 0) (Consts.half * ((Rs.AngleConsts.pi : R) * Rs.powi Consts.half j))) fun u26 =>
+                  some [u25, u26]) (Rs.range 1 (k + 1 + 1 - i))) fun u27 => some (u19 ++ List.flatten u27)))
+        (Rs.range 0 (k + 1 + 1 - 1)) []
+      have hbody : (fun (st17 : List (SingleOp R)) a18 =>
+            (h_h (R := R) (vec.getD a18 0)).bind fun a =>
+              (List.mapM (fun a20 =>
+                  ((rotate_rz (vec.getD (a18 + a20) 0) ((Rs.AngleConsts.pi : R) * Rs.powi Consts.half a20)).bind fun a =>
+                      single_c a (vec.getD a18 0)).bind fun a =>
+                    (rotate_rz (vec.getD a18 0) (Consts.half * ((Rs.AngleConsts.pi : R) * Rs.powi Consts.half a20))).bind
+                      fun a_1 => some [a, a_1]) (Rs.range 1 (k + 1 + 1 - a18))).bind
+                fun a_1 => some (st17 ++ a ++ a_1.flatten)) =
+          (fun res i =>
+            Option.bind ((Option.bind (h_h (R := R) (vec.getD i 0)) fun u19 =>
+              Option.bind (List.mapM (fun j =>
+                Option.bind (Option.bind (rotate_rz (vec.getD (i + j) 0) ((Rs.AngleConsts.pi : R) * Rs.powi Consts.half j))
+                    fun op => single_c op (vec.getD i 0)) fun u25 =>
+                  Option.bind (rotate_rz (vec.getD i 0) (Consts.half * ((Rs.AngleConsts.pi : R) * Rs.powi Consts.half j))) fun u26 =>
+                    some [u25, u26]) (Rs.range 1 (k + 1 + 1 - i))) fun u27 => some (u19 ++ List.flatten u27))) (fun x => some (res ++ x))) := by
+        funext res i
+        cases h_h (R := R) (vec.getD i 0) with
+        | none => rfl
+        | some u =>
+          simp only [Option.bind_some]
+          cases List.mapM (fun a20 =>
+                  ((rotate_rz (vec.getD (i + a20) 0) ((Rs.AngleConsts.pi : R) * Rs.powi Consts.half a20)).bind fun a =>
+                      single_c a (vec.getD i 0)).bind fun a =>
+                    (rotate_rz (vec.getD i 0) (Consts.half * ((Rs.AngleConsts.pi : R) * Rs.powi Consts.half a20))).bind
+                      fun a_1 => some [a, a_1]) (Rs.range 1 (k + 1 + 1 - i)) with
+          | none => rfl
+          | some v => simp [List.append_assoc]
+      rw [hbody, hloop]
+      have hr0 : Rs.range 0 (k + 1 + 1 - 1) = List.range (k + 1 + 1 - 1) := by
+        simp [Rs.range, List.range_eq_range']
+      rw [hr0]
+      simp only [hstage]
+      simp only [h_h_eq]
+      cases List.mapM (fun i => (do
+            let hi ← Op.h (R := R) (vec.getD i 0)
+            let rots ← (List.range (k + 1 + 1 - i - 1)).mapM (fun k' =>
+              match SingleOp.checked (Atom.rz (vec.getD (i + (k' + 1)) 0) (genPhase (R := R) (k' + 1))),
+                    SingleOp.checked (Atom.rz (vec.getD i 0) (genPhase (R := R) (k' + 1 + 1))) with
+              | some g, some g' => (g.c (vec.getD i 0)).map (fun cg => [cg, g'])
+              | _, _ => none)
+            pure (hi ++ rots.flatten))) (List.range (k + 1 + 1 - 1)) with
+      | none => rfl
+      | some st =>
+        simp only [Option.map_some, List.nil_append, Option.bind_some, Option.bind_eq_bind]
+        cases Op.h (R := R) (vec.getD (k + 1 + 1 - 1) 0) <;> rfl
+
+theorem swapped_loop_eq (a fuel pos : Nat) (acc : List Nat) (hp : pos < 2 ^ 64) :
+    (qft_qft_swapped_loop1 a fuel (acc, pos)).map (fun st => st.1) = Op.maskBitsLoop a fuel pos acc := by
+  induction fuel generalizing pos acc with
+  | zero => simp [qft_qft_swapped_loop1, Op.maskBitsLoop]
+  | succ n ih =>
+    have hs : shl1 pos < 2 ^ 64 := by unfold shl1 W; exact Nat.mod_lt _ (by decide)
+    unfold qft_qft_swapped_loop1 Op.maskBitsLoop
+    by_cases hc : (pos != 0 && decide (pos ≤ a)) = true
+    · by_cases hb : (pos &&& a != 0) = true
+      · simp [hc, hb, shl_pos pos hp, ← ih _ _ hs]
+      · simp [hc, hb, shl_pos pos hp, ← ih _ _ hs]
+    · simp [hc]
+
+theorem qft_qft_swapped_eq (a : Nat) : qft_qft_swapped (R := R) a = Op.qftSwapped genPhase a := by
+  unfold qft_qft_swapped Op.qftSwapped
+  rw [← swapped_loop_eq a (W + 2) 1 [] (by decide)]
+  dsimp only
+  generalize qft_qft_swapped_loop1 a (W + 2) ([], 1) = o
+  cases o with
+  | none => rfl
+  | some st =>
+    obtain ⟨vm, idx⟩ := st
+    simp only [Option.bind_some, Option.map_some, Option.bind_eq_bind]
+    have hbody : (fun (st6 : List (SingleOp R)) a7 =>
+          Option.bind (swapmod_swap (R := R) (vm.getD a7 0 ||| vm.getD (vm.length - a7 - 1) 0)) fun u8 =>
+            some (st6 ++ MultiOp.ofSingle u8)) =
+        (fun res i => Option.bind ((SingleOp.checked (Atom.swap (R := R) (vm.getD i 0 ||| vm.getD (vm.length - i - 1) 0))).map
+          MultiOp.ofSingle) (fun x => some (res ++ x))) := by
+      funext res i
+      rw [swapmod_swap_eq]
+      cases SingleOp.checked (Atom.swap (R := R) (vm.getD i 0 ||| vm.getD (vm.length - i - 1) 0)) <;> rfl
+    rw [hbody, foldlM_append]
+    have hr0 : Rs.range 0 (vm.length >>> 1) = List.range (vm.length / 2) := by
+      simp [Rs.range, List.range_eq_range', Nat.shiftRight_eq_div_pow]
+    rw [hr0, qft_qft_eq]
+    cases List.mapM (fun i => (SingleOp.checked (Atom.swap (R := R) (vm.getD i 0 ||| vm.getD (vm.length - i - 1) 0))).map
+        MultiOp.ofSingle) (List.range (vm.length / 2)) with
+    | none => rfl
+    | some sw =>
+      simp only [Option.map_some, List.nil_append, Option.bind_some]
+      cases Op.qft (R := R) genPhase a <;> rfl
+
+theorem op_qft_eq (a : Nat) : op_qft (R := R) a = Op.qft genPhase a := by
+  simp [op_qft, qft_qft_eq]
+theorem op_qft_swapped_eq (a : Nat) : op_qft_swapped (R := R) a = Op.qftSwapped genPhase a := by
+  simp [op_qft_swapped, qft_qft_swapped_eq]
+
+end qft
 
 /-! ### `sample_all` (`register/quant.rs`) -/
 section sample
@@ -655,12 +800,6 @@ theorem vreg_index_by_eq (v : VReg) (f : Nat → Bool) : vreg_index_by (vregOfMo
 
 theorem quant_get_vreg_eq (r : QReg R) : quant_get_vreg (ofModel r) = vregOfModel r.getVReg := by
   simp [quant_get_vreg, QReg.getVReg, ofModel, vreg_new_with_mask_eq]
-
-theorem quant_get_vreg_by_eq (r : QReg R) (mask : Nat) :
-    quant_get_vreg_by (ofModel r) mask = (r.getVRegBy mask).map vregOfModel := by
-  unfold quant_get_vreg_by QReg.getVRegBy
-  simp only [ofModel, notW_eq, vreg_new_with_mask_eq]
-  by_cases h : mask &&& CReg.notW r.qMask = 0 <;> simp [h]
 
 /-! ### the interpreter's block queue (`qasm/int/ext_op.rs`) -/
 section extop
